@@ -60,7 +60,7 @@ func c07Lake(c *Ctx, l *TLake, progs []OptProg) {
 		ks, _ := order.ParseSortKeys(p.Key)
 		keys[p.ID] = ks
 	}
-	n := c.N(110, 2500)
+	n := c.N(110, 700)
 	if n > len(progs) {
 		n = len(progs)
 	}
